@@ -390,6 +390,8 @@ def _sym(expr: ast.expr) -> str:
 def facts_of_condition(expr: ast.expr, positive: bool, kind: str = "cond") -> List[Fact]:
     res = []
     for e, p in _split(expr, positive):
+        if isinstance(e, ast.Constant) and isinstance(e.value, bool):
+            continue  # `assert True`, `if True:` carry no information
         t, p2 = _canon_fact(e, p)
         res.append(Fact(t, p2, kind))
     return res
